@@ -484,6 +484,15 @@ theorem duration_condition_literal (o : Oracles) (env : Env) (op : Op) (n : Num)
     revert h
     simp [termSql, termDuration, hpd, bind, Except.bind, hk']
 
+
+/-! ### the hypotheses of the unit theorems are satisfiable -/
+example : Units.Num.Wf ⟨false, [1], true, [5]⟩ := ⟨by decide, by decide, by decide⟩
+example : (match parseDuration ⟨false, [1], true, [5]⟩ (some .h) with | .ok ns => ns == 5400000000000 | .error _ => false) = true := by decide +kernel
+example : Units.exactNs ⟨false, [1], true, [5]⟩ 3600000000000 = 5400000000000 := by decide +kernel
+/-- 2562047 h fits an int64, 2562048 h does not: refused, not wrapped around -/
+example : (parseDuration ⟨false, [2,5,6,2,0,4,7], false, []⟩ (some .h)).toBool = true ∧
+    (parseDuration ⟨false, [2,5,6,2,0,4,8], false, []⟩ (some .h)).toBool = false := by decide +kernel
+
 /-! ## chains of selectors: the pointer algorithm of `planComplex` (extension c11y) -/
 
 /-- `planComplex` AS WRITTEN — a walk that mutates a tree of planner objects through the pointers `root` and `current`
